@@ -240,6 +240,17 @@ func TestDictionary(t *testing.T) {
 	}
 }
 
+// TestConcurrent (variant "conc", -race): the same sequential oracles, with the
+// cases of a batch checked from 8 goroutines at once, so that hidden shared
+// state behind functions that look pure (pools, package-level buffers,
+// in-place edits) shows as a data race or a wrong result.
+func TestConcurrent(t *testing.T) {
+	if vp.Variant() != "conc" {
+		t.Skip("runs in the conc variant (-race)")
+	}
+	vp.RunConcurrent(t, arpaProp, 200, 64, 8)
+}
+
 func TestArpa(t *testing.T)   { vp.Run(t, arpaProp) }
 func TestReplay(t *testing.T) { vp.Replay(t) }
 
